@@ -69,10 +69,13 @@ func (m *Propose) Event(c *vnet.Cluster, e *vnet.Event) {
 		}
 		now := uint64(n.Timer.Now().UnixNano())
 		tr := now - now%inc
+		if s.prevTs >= 1<<63 {
+			m.inc("proposals-after-huge-previous-timestamp")
+		}
 		switch {
 		case ts <= s.prevTs:
 			m.fail(c, "timestamp-not-increasing", "n%d proposal timestamp %d is not above the previous block's %d (clock %d, increment %d)", n.ID, ts, s.prevTs, now, inc)
-		case tr >= s.prevTs+inc:
+		case s.prevTs+inc >= s.prevTs && tr >= s.prevTs+inc: // (no uint64 overflow of prev+inc)
 			m.inc("proposals-clock-ahead")
 			if ts != tr {
 				m.fail(c, "timestamp-not-clock", "n%d proposal timestamp %d, expected truncated clock reading %d (previous %d, increment %d)", n.ID, ts, tr, s.prevTs, inc)
